@@ -72,7 +72,7 @@ def normalize_name(name: str) -> str:
     """
     Clean up [] and " characters from the given name
     """
-    clean_up_re = r'[\[\]"]'
+    clean_up_re = r'[\[\]"`]'
     return re.sub(clean_up_re, "", name).lower()
 
 
